@@ -86,7 +86,7 @@ func (fr *Frame) callDynamic(site ssa.Instruction, fv *Term, fval ssa.Value, arg
 	// several candidate callees: their outcomes are merged here, so none of them may leave a split result behind
 	savedNoSplit := vc.noSplit
 	vc.noSplit = true
-	defer func() { vc.noSplit = savedNoSplit; vc.pendingAlt = nil }()
+	defer func() { vc.noSplit = savedNoSplit; vc.pendingAlt = nil; vc.pendingMore = nil }()
 	for _, id := range ids {
 		c := vc.closures[id]
 		cond := Eq(fv, IntLit(id))
@@ -376,6 +376,18 @@ func (vc *VC) execFunction(f *ssa.Function, bindings []Value, args []Value, st *
 					fr.ghostCode(ct, "leave", m, env)
 				}
 				return &retEdge{St: m, Val: val}
+			}
+			if ct != nil && ct.SplitReturns && len(tg) > 1 && len(tg) <= 32 {
+				// one group per "return true" edge (the failure of one particular step of a checker chain), then the false group
+				a := grp(tg[:1], TTrue)
+				var more []*retEdge
+				for i := 1; i < len(tg); i++ {
+					more = append(more, grp(tg[i:i+1], TTrue))
+				}
+				*st = *a.St
+				vc.pendingAlt = grp(fg, TFalse)
+				vc.pendingMore = more
+				return a.Val
 			}
 			a, b := grp(tg, TTrue), grp(fg, TFalse)
 			*st = *a.St
